@@ -183,6 +183,10 @@ def call_out(I, f, *a):
         return enc_exc(e)
 
 
+class _Str(str):
+    """A string that is an instance of a str SUBCLASS (like rdflib.URIRef or the library's own Prefix)."""
+
+
 def str_row(I, c, i, x, base, full, methods=None):
     a = {}
     for m, f in STR_CALLS.items():
@@ -191,6 +195,14 @@ def str_row(I, c, i, x, base, full, methods=None):
         for suf in keys_for(m, full, base):
             s, p, rn = SUFFIX_MODES[suf]
             a[m + suf] = call_out(I, f, c, x, s, p, rn)
+            if suf == "@p" and a[m + suf] == ["val", I(x)]:
+                # "x unchanged": asked again with the same text as an instance of a str subclass, passthrough must hand back
+                # THAT object (the validator judges this only where the default answer is None)
+                x2 = _Str(x)
+                try:
+                    a[m + "@p#same"] = ["val", f(c, x2, s, p, rn) is x2]
+                except BaseException:  # noqa: BLE001
+                    a[m + "@p#same"] = ["val", False]
     return {"i": i, "x": I(x), "b": base, "f": full, "a": a}
 
 
